@@ -245,7 +245,7 @@ func main() {
 	rng := r.Rng("c14")
 	dstLens := []int{0, 1, 16, 254, 255, 256, 257, 300, 1000}
 	var cases []Case
-	reps := r.Pick(1, 8)
+	reps := r.Pick(2, 16)
 	for rep := 0; rep < reps; rep++ {
 		for hi, hf := range hashes {
 			b := hf.Size()
@@ -267,14 +267,14 @@ func main() {
 			}
 		}
 	}
-	for i := 0; i < r.Pick(120, 4000); i++ {
+	for i := 0; i < r.Pick(500, 12000); i++ {
 		dl := dstLens[rng.IntN(len(dstLens))]
 		cases = append(cases, Case{Kind: "suites", DST: mon.Hex(mon.Bytes(rng, dl)), Msg: mon.Hex(mon.Bytes(rng, rng.IntN(200)))})
 	}
 	for _, u := range mapCatalogue() {
 		cases = append(cases, Case{Kind: "map", U: fmt.Sprintf("%x", u)})
 	}
-	for i := 0; i < r.Pick(400, 20000); i++ {
+	for i := 0; i < r.Pick(3000, 100000); i++ {
 		cases = append(cases, Case{Kind: "map", U: mon.Hex(mon.Bytes(rng, 32))})
 	}
 	r.Observe("cases", len(cases))
